@@ -549,7 +549,7 @@ func (c *Ctx) RuleStoreThenError(fns []*ssa.Function) {
 // ---------- limit variable discipline (C12.zero, part of C18.L) ----------
 
 // RuleLimitZero: every ordering comparison against a load of an exported Max* int global must be
-// conjoined with a != 0 / > 0 test of the same global on the path (dominating If true-edge).
+// conjoined with a != 0 test of the same global on the path (dominating If true-edge).
 func (c *Ctx) RuleLimitZero(fns []*ssa.Function, varName string) {
 	for _, fn := range fns {
 		for _, b := range fn.Blocks {
@@ -604,7 +604,7 @@ func (c *Ctx) RuleLimitZero(fns []*ssa.Function, varName string) {
 						c.add("discharged", "LIMIT0", fn, bo.Pos(), msg)
 					}
 				} else {
-					c.add("violated", "LIMIT0", fn, bo.Pos(), "comparison against "+g.Name()+" is not conjoined with a `!= 0` test although 0 is documented to disable the limit")
+					c.add("violated", "LIMIT0", fn, bo.Pos(), "comparison against "+g.Name()+" is not conjoined with a `!= 0` test: 0, and only 0, is documented to disable the limit (a `> 0` test lets a negative limit disable it too)")
 				}
 			}
 		}
@@ -637,12 +637,14 @@ func (c *Ctx) dominatedByNonZeroTest(b *ssa.BasicBlock, g *ssa.Global) bool {
 		}
 		// which edge leads to d?
 		trueEdge := id.Succs[0] == d || id.Succs[0].Dominates(d) && !(id.Succs[1] == d || id.Succs[1].Dominates(d))
+		// "non-zero" is `!= 0`: under `> 0` a negative limit switches the check off, although every input is longer
+		// than a negative limit and the property has any longer input rejected whenever the limit is not zero
 		switch cond.Op {
-		case token.NEQ, token.GTR:
+		case token.NEQ:
 			if trueEdge {
 				return true
 			}
-		case token.EQL, token.LEQ:
+		case token.EQL:
 			if !trueEdge {
 				return true
 			}
